@@ -99,21 +99,43 @@ def fromDlf (reOk : String → Bool) (a : AFilter) : Filter :=
     lvlMax := (jLvl a.lvlMax).getD none,
     lifecycles := none }
 
+/-- can the abstract filter be written as one entry of a dlt-convert APID/CTID list? (positive, enabled, two literal ids of
+    at most four ASCII bytes without the padding character `-`, nothing else) -/
+def listIdOk (s : Option String) (flag : Option Bool) : Bool :=
+  match s, flag with
+  | some x, some false => !x.isEmpty && x.toList.length ≤ 4 && x.toList.all (fun c => c.toNat < 128) && !x.toList.contains '-'
+  | _, _ => false
+
+def listExpressible (a : AFilter) : Bool :=
+  a.kind == 0 && a.enabled && !a.negate && a.ecu.isNone && listIdOk a.apid a.apidRe && listIdOk a.ctid a.ctidRe &&
+  a.vmm.isNone && a.mstp.isNone && a.payload.isNone && a.payloadRegex.isNone && a.lvlMin.isNone && a.lvlMax.isNone &&
+  a.lifecycles.isNone
+
+/-- `filters_from_convert_format` on the entry the harness renders for `a`: the bytes up to the first `-` (at most four),
+    zero padded, as literal ids of a positive filter -/
+def fromList (a : AFilter) : Filter :=
+  { apid := a.apid.bind fun s => (char4 s).map .lit, ctid := a.ctid.bind fun s => (char4 s).map .lit }
+
 /-- `Filter::to_json` as an abstract configuration -/
 def showId (b : List UInt8) : String :=
   -- `Display for DltChar4`: stops at the first NUL; < 0x20 -> '-', > 0x7e -> '?'
   String.ofList ((b.takeWhile (· != 0)).map fun x => if x.toNat < 0x20 then '-' else if x.toNat > 0x7e then '?' else Char.ofNat x.toNat)
 
+/-- `to_json` writes a case-insensitive pattern without the `(?i)` prefix the constructor had put in front of it -/
+def stripCiOf (ic : Bool) (p : String) : String :=
+  if ic && p.toList.take 4 == ['(', '?', 'i', ')'] then String.ofList (p.toList.drop 4) else p
+
+def idOut (c : Option IdCrit) : Option String × Option Bool :=
+  match c with
+  | some (.lit b) => (some (showId b), some false)
+  | some (.re p) => (some p, some true)
+  | none => (none, none)
+
 def kindNum : Kind → Nat
   | .positive => 0 | .negative => 1 | .marker => 2 | .event => 3
 
 def toJson (f : Filter) : AFilter :=
-  let idOut (c : Option IdCrit) : Option String × Option Bool :=
-    match c with
-    | some (.lit b) => (some (showId b), some false)
-    | some (.re p) => (some p, some true)
-    | none => (none, none)
-  let stripCi (p : String) : String := if f.ignoreCase && p.startsWith "(?i)" then (p.drop 4).toString else p
+  let stripCi (p : String) : String := stripCiOf f.ignoreCase p
   { kind := kindNum f.kind, enabled := f.enabled, negate := f.negate,
     ecu := (idOut f.ecu).1, ecuRe := (idOut f.ecu).2,
     apid := (idOut f.apid).1, apidRe := (idOut f.apid).2,
